@@ -17,6 +17,11 @@ def run(repo):
         body = exlib.fn_body(src, fn, 0, rel)
         s += "/-- integer literals of `Storage::%s` in %s, in source order -/\n" % (fn, rel)
         s += "def lits_%s : List Nat := %s\n\n" % (fn, exlib.lean_nat_list(exlib.int_literals(body)))
+    body = exlib.fn_body(src, "new_builder", 0, rel)
+    cont = re.search(r"self\.snaps\.front\(\)", body) is not None and re.search(r"clone_from\(\s*&\s*newest\.snap\s*\)", body) is not None \
+        and re.search(r"\.recycle\(\)", body) is not None
+    s += "/-- `Storage::new_builder` recycles a copy of the newest stored snapshot (repair of D25) -/\n"
+    s += "def new_builder_continues_newest : Bool := %s\n\n" % ("true" if cont else "false")
     rel = "server/src/main.rs"
     src = exlib.strip_rust_comments(exlib.read(repo, rel))
     body = exlib.fn_body(src, "send_snapshots", 0, rel)
